@@ -1,5 +1,6 @@
 use crate::error::Error;
 use crate::vm::builtin::{pop_argc, pop_string, pop_symbol};
+use crate::vm::compare::same_symbol_name;
 use crate::vm::vcell::VCell;
 use crate::vm::Vm;
 use crate::{lex, parse};
@@ -44,7 +45,7 @@ fn symbol_eq(vm: &mut Vm) -> Result<VCell, Error> {
     for _ in 0..argc - 1 {
         let x = pop_symbol(vm, "symbol=?")?;
         {
-            if x.as_str() != y.as_str() {
+            if !same_symbol_name(x.as_str(), y.as_str()) {
                 result = false;
             }
         }
